@@ -1,7 +1,7 @@
 (* Props/C17.v — property C17: date-time / duration / time-of-day arithmetic obeys its inverse laws.
    Statements about the model (Model/Time.v) closed by `exact`; Print Assumptions at the end. *)
 From Coq Require Import ZArith List Bool.
-From Tevec Require Import Base.Prelude Spec.Calendar Model.Time Proofs.Time Proofs.TimeCal Proofs.Calendar Proofs.TimeCal2 Proofs.Time3.
+From Tevec Require Import Base.Prelude Spec.Calendar Model.Time Proofs.Time Proofs.TimeCal Proofs.Calendar Proofs.TimeCal2 Proofs.Time3 Proofs.Audit17.
 Local Open Scope Z_scope.
 
 (* ---- (1) (x + d) - d = x and (x - d) + d = x for a month-free d, outside known-finding class 1 ------- *)
@@ -440,6 +440,232 @@ Theorem C17_td_order_group_compatible :
   /\ (forall a b, td_valid a -> td_valid b -> td_partial_cmp (td_neg a) (td_neg b) = td_partial_cmp b a).
 Proof. split; [exact td_cmp_add_mono | exact td_cmp_neg]. Qed.
 
+(* ==== (9) AUDIT (notes/C17.md "Audit matrix"; proofs in Proofs/Audit17.v) ========================================= *)
+(* ---- (9a) DateTime +- TimeDelta on EVERY operand: one closed form, the checks in source order, sign-uniform *)
+Theorem C17_dt_add_closed_form :
+  forall u x d, dt_add u x d = if is_nat x || td_is_nat d then Ok NaT else dt_shift_spec u x (td_months d) (td_ns d).
+Proof. exact dt_add_closed_form. Qed.
+Theorem C17_dt_sub_closed_form :
+  forall u x d, dt_sub u x d = if is_nat x || td_is_nat d then Ok NaT else dt_shift_spec u x (- td_months d) (- td_ns d).
+Proof. exact dt_sub_closed_form. Qed.
+(* the three panics: as_cr().unwrap() (outside chrono's range), then the month step, then the fixed part *)
+Theorem C17_dt_shift_outcomes :
+  forall u x k n,
+  (as_cr u x = None -> dt_shift_spec u x k n = Panic UnwrapNone)
+  /\ (forall c, as_cr u x = Some c -> k <> 0 -> cr_add_months c k = None -> dt_shift_spec u x k n = Panic OtherPanic)
+  /\ (forall c c1, as_cr u x = Some c -> (if k =? 0 then Some c else cr_add_months c k) = Some c1 ->
+        cr_add_ns c1 n = None -> dt_shift_spec u x k n = Panic Overflow)
+  /\ (forall c c1 r, as_cr u x = Some c -> (if k =? 0 then Some c else cr_add_months c k) = Some c1 ->
+        cr_add_ns c1 n = Some r -> dt_shift_spec u x k n = from_cr u r).
+Proof. exact dt_shift_outcomes. Qed.
+Theorem C17_dt_add_monthfree_outcome :
+  forall u x d c, x <> NaT -> td_months d = 0 -> as_cr u x = Some c ->
+  dt_add u x d =
+    if date_in_range ((x * unit_ns u + td_ns d) / 1000000000 / SECS_PER_DAY)
+    then from_cr u (cr_of_total_ns (x * unit_ns u + td_ns d)) else Panic Overflow.
+Proof. exact dt_add_monthfree_outcome. Qed.
+(* x - d = x + (-d) and x + d = x - (-d), NaT operands included *)
+Theorem C17_dt_sub_is_add_neg :
+  forall u x d, in_i32 (td_months d) = true ->
+    dt_sub u x d = dt_add u x (td_neg d) /\ dt_add u x d = dt_sub u x (td_neg d).
+Proof. intros u x d H. split; [exact (dt_sub_as_add_neg u x d H) | exact (dt_add_as_sub_neg u x d H)]. Qed.
+(* the value of a month-free shift for EVERY d: x + floor(ns / unit) — no hypothesis on the class *)
+Theorem C17_dt_shift_monthfree_value :
+  forall u x d y, x <> NaT -> td_months d = 0 -> y <> NaT ->
+    (dt_add u x d = Ok y -> y = x + td_ns d / unit_ns u) /\ (dt_sub u x d = Ok y -> y = x + (- td_ns d) / unit_ns u).
+Proof.
+  intros u x d y Hx Hm Hy. split; intros H; [exact (dt_add_monthfree_value u x d y Hx Hm H Hy) | exact (dt_sub_monthfree_value u x d y Hx Hm H Hy)].
+Qed.
+(* ---- (9b) known-finding class 1, EXACTLY: the law fails IFF d is in the class (both orders of the round trip) *)
+Theorem C17_inverse_law_iff_class1 :
+  forall u x d y, in_i64 x = true -> x <> NaT -> td_months d = 0 -> dt_add u x d = Ok y -> y <> NaT ->
+    (dt_sub u y d = Ok x <-> kf_subunit u d = false).
+Proof. exact inverse_law_iff_class1. Qed.
+Theorem C17_inverse_law_iff_class1_mirror :
+  forall u x d y, in_i64 x = true -> x <> NaT -> td_months d = 0 -> dt_sub u x d = Ok y -> y <> NaT ->
+    (dt_add u y d = Ok x <-> kf_subunit u d = false).
+Proof. exact inverse_law_iff_class1_mirror. Qed.
+Theorem C17_sub_add_class1_loses_one_unit :
+  forall u x d y z, x <> NaT -> td_months d = 0 -> kf_subunit u d = true ->
+    dt_sub u x d = Ok y -> y <> NaT -> dt_add u y d = Ok z -> z <> NaT -> z = x - 1.
+Proof. exact sub_add_class1_loses_one_unit. Qed.
+Theorem C17_round_trip_value :
+  forall u x d y z, x <> NaT -> td_months d = 0 -> dt_add u x d = Ok y -> y <> NaT -> dt_sub u y d = Ok z -> z <> NaT ->
+    z = x + (if kf_subunit u d then -1 else 0).
+Proof. exact round_trip_value. Qed.
+(* ---- (9c) DateTime - DateTime: total description, algebra, the other inverse law, never in class 1 *)
+Theorem C17_diff_closed_form :
+  forall u a b, dt_diff u a b =
+    if is_nat a || is_nat b then Ok td_nat
+    else match as_cr u a, as_cr u b with
+         | Some _, Some _ => Ok (mktd 0 (instant_ns u a - instant_ns u b))
+         | _, _ => Panic UnwrapNone
+         end.
+Proof. exact dt_diff_closed_form. Qed.
+Theorem C17_diff_nano_total : forall a b, a <> NaT -> b <> NaT -> dt_diff Nano a b = Ok (mktd 0 (a - b)).
+Proof. exact dt_diff_nano_total. Qed.
+Theorem C17_diff_algebra :
+  (forall u a b d, a <> NaT -> b <> NaT -> dt_diff u a b = Ok d -> dt_diff u b a = Ok (td_neg d))
+  /\ (forall u a c, as_cr u a = Some c -> dt_diff u a a = Ok td_zero)
+  /\ (forall u a b c d1 d2, a <> NaT -> b <> NaT -> c <> NaT -> dt_diff u a b = Ok d1 -> dt_diff u b c = Ok d2 ->
+        dt_diff u a c = Ok (mktd 0 (td_ns d1 + td_ns d2))).
+Proof. split; [exact dt_diff_antisym|]. split; [exact dt_diff_self | exact dt_diff_triangle]. Qed.
+Theorem C17_diff_sub_inverse :
+  forall u a b d, in_i64 b = true -> a <> NaT -> b <> NaT -> dt_diff u a b = Ok d -> dt_sub u a d = Ok b.
+Proof. exact diff_sub_inverse. Qed.
+Theorem C17_diff_never_class1_and_valid :
+  forall u a b d, in_i64 a = true -> in_i64 b = true -> a <> NaT -> b <> NaT -> dt_diff u a b = Ok d ->
+    kf_subunit u d = false /\ td_months d = 0 /\ td_valid d.
+Proof.
+  intros u a b d Ha Hb Na Nb H. destruct (dt_diff_never_class1 u a b d Na Nb H) as [H1 H2].
+  split; [exact H1|]. split; [exact H2|]. exact (dt_diff_valid u a b d Ha Hb Na Nb H).
+Qed.
+(* ---- (9d) TimeDelta + - * : the rejected input exactly (months are evaluated before the fixed part), NaT operands *)
+Theorem C17_td_ops_total :
+  (forall a b, td_is_nat a = false -> td_is_nat b = false ->
+     td_add a b = if negb (in_i32 (td_months a + td_months b)) then Panic Overflow
+                  else if negb (dur_in_range (td_ns a + td_ns b)) then Panic Overflow
+                  else Ok (mktd (td_months a + td_months b) (td_ns a + td_ns b)))
+  /\ (forall a b, td_is_nat a = false -> td_is_nat b = false ->
+     td_sub a b = if negb (in_i32 (td_months a - td_months b)) then Panic Underflow
+                  else if negb (dur_in_range (td_ns a - td_ns b)) then Panic Overflow
+                  else Ok (mktd (td_months a - td_months b) (td_ns a - td_ns b)))
+  /\ (forall a k, td_is_nat a = false ->
+     td_mul a k = if negb (in_i32 (td_months a * k)) then Panic Overflow
+                  else if (td_ns a * k / 1000000000 <=? i64_min) || (i64_max <=? td_ns a * k / 1000000000) then Panic Overflow
+                  else Ok (mktd (td_months a * k) (td_ns a * k)))
+  /\ (forall d, td_neg d = if td_is_nat d then d else mktd (- td_months d) (- td_ns d)).
+Proof. split; [exact td_add_total|]. split; [exact td_sub_total|]. split; [exact td_mul_total | exact td_neg_total]. Qed.
+Theorem C17_td_ops_nat_total :
+  forall a b k, td_is_nat a = true \/ td_is_nat b = true ->
+    td_add a b = Ok td_nat /\ td_sub a b = Ok td_nat /\ (td_is_nat a = true -> td_mul a k = Ok td_nat).
+Proof. exact td_ops_nat_total. Qed.
+Theorem C17_td_group_more :
+  (forall a, td_valid a -> td_add td_zero a = Ok a)
+  /\ (forall a, td_valid a -> td_sub a a = Ok td_zero)
+  /\ (forall a b c r, td_is_nat a = false -> td_is_nat b = false -> td_is_nat c = false ->
+        td_add a c = Ok r -> td_add b c = Ok r -> a = b)
+  /\ (forall a b r, td_valid a -> td_valid b -> td_add a b = Ok r -> td_is_nat r = false ->
+        td_add (td_neg a) (td_neg b) = Ok (td_neg r)).
+Proof. split; [exact td_zero_left|]. split; [exact td_sub_self|]. split; [exact td_add_cancel | exact td_neg_add]. Qed.
+(* ---- (9e) calendar months: the round trip is the identity IFF no end-of-month clamping; composition; mixed d *)
+Theorem C17_add_months_roundtrip_iff :
+  forall y m d k, valid_civil (y, m, d) ->
+    add_months (add_months (y, m, d) k) (- k)
+      = (y, m, Z.min d (days_in_month ((y * 12 + (m - 1) + k) / 12) ((y * 12 + (m - 1) + k) mod 12 + 1)))
+    /\ (add_months (add_months (y, m, d) k) (- k) = (y, m, d)
+        <-> d <= days_in_month ((y * 12 + (m - 1) + k) / 12) ((y * 12 + (m - 1) + k) mod 12 + 1))
+    /\ (d <= 28 -> add_months (add_months (y, m, d) k) (- k) = (y, m, d)).
+Proof.
+  intros y m d k H. split; [exact (add_months_back y m d k H)|]. split; [exact (add_months_roundtrip_iff y m d k H)|].
+  exact (add_months_roundtrip_day28 y m d k H).
+Qed.
+Theorem C17_add_months_compose :
+  forall y m d j k, valid_civil (y, m, d) ->
+    fst (add_months (add_months (y, m, d) j) k) = fst (add_months (y, m, d) (j + k))
+    /\ (d <= 28 -> add_months (add_months (y, m, d) j) k = add_months (y, m, d) (j + k)).
+Proof. exact add_months_compose. Qed.
+Theorem C17_month_add_sub_not_inverse :
+  exists u x k y z, dt_add u x (mktd k 0) = Ok y /\ dt_sub u y (mktd k 0) = Ok z /\ z <> x /\ z <> NaT /\ y <> NaT.
+Proof. exact month_add_sub_not_inverse. Qed.
+Theorem C17_month_add_sub_inverse_iff :
+  forall u x k y z c yr mo dd, x <> NaT -> k <> 0 -> k <> i32_min ->
+    dt_add u x (mktd k 0) = Ok y -> y <> NaT -> dt_sub u y (mktd k 0) = Ok z -> z <> NaT ->
+    as_cr u x = Some c -> cr_civil c = (yr, mo, dd) ->
+    (z = x <-> dd <= days_in_month ((yr * 12 + (mo - 1) + k) / 12) ((yr * 12 + (mo - 1) + k) mod 12 + 1)).
+Proof. exact month_add_sub_inverse_iff. Qed.
+Theorem C17_dt_add_mixed_sequential :
+  forall u x k n y1, x <> NaT -> k <> 0 -> k <> i32_min -> dt_add u x (mktd k 0) = Ok y1 -> y1 <> NaT ->
+    dt_add u x (mktd k n) = dt_add u y1 (mktd 0 n).
+Proof. exact dt_add_mixed_sequential. Qed.
+(* ---- (9f) Time: constructors on every i64, from_num_seconds_from_midnight, as_cr defined exactly where, +- total *)
+Theorem C17_time_ctor_total :
+  forall h m s, time_from_hms h m s =
+    if in_i64 (h * 3600) && in_i64 (m * 60) && in_i64 (h * 3600 + m * 60) && in_i64 (h * 3600 + m * 60 + s)
+       && in_i64 ((h * 3600 + m * 60 + s) * 1000000000)
+    then Ok ((h * 3600 + m * 60 + s) * 1000000000) else Panic Overflow.
+Proof. exact time_from_hms_total. Qed.
+Theorem C17_time_ctor_linear :
+  forall h m s x t,
+  (time_from_hms h m s = Ok t -> t = (h * 3600 + m * 60 + s) * 1000000000)
+  /\ (time_from_hms_nano h m s x = Ok t -> t = (h * 3600 + m * 60 + s) * 1000000000 + x)
+  /\ (time_from_hms_micro h m s x = Ok t -> t = (h * 3600 + m * 60 + s) * 1000000000 + x * 1000)
+  /\ (time_from_hms_milli h m s x = Ok t -> t = (h * 3600 + m * 60 + s) * 1000000000 + x * 1000000)
+  /\ (time_from_nsm h x = Ok t -> t = h * 1000000000 + x).
+Proof. exact time_ctor_linear. Qed.
+Theorem C17_time_from_num_seconds_from_midnight :
+  forall secs n, 0 <= secs < 86400 -> 0 <= n < 1000000000 ->
+    exists t, time_from_nsm secs n = Ok t /\ t = secs * 1000000000 + n /\ 0 <= t < 86400000000000
+      /\ time_hour t = Ok (secs / 3600) /\ time_minute t = Ok (secs / 60 mod 60) /\ time_second t = Ok (secs mod 60)
+      /\ time_nanosecond t = Ok n.
+Proof. exact time_from_nsm_getters. Qed.
+Theorem C17_time_from_nsm_is_hms_nano :
+  forall h m s n, hms_ok h m s -> 0 <= n < 1000000000 -> time_from_nsm (h * 3600 + m * 60 + s) n = time_from_hms_nano h m s n.
+Proof. exact time_from_nsm_is_hms_nano. Qed.
+Theorem C17_time_as_cr_some_iff :
+  forall t, in_i64 t = true ->
+    (time_as_cr t <> None <-> (0 <= t \/ Z.rem t 1000000000 = 0) /\ wrap_u32 (Z.quot t 1000000000) < 86400).
+Proof. exact time_as_cr_some_iff. Qed.
+Theorem C17_time_shift_total :
+  (forall t d, time_add t d =
+     if is_nat t || td_is_nat d then Ok NaT
+     else if negb (td_months d =? 0) then Panic OtherPanic
+     else if negb (in_i64 (td_ns d)) then Ok NaT
+     else if in_i64 (t + td_ns d) then Ok (t + td_ns d) else Panic Overflow)
+  /\ (forall t d, time_sub t d =
+     if is_nat t || td_is_nat d then Ok NaT
+     else if negb (td_months d =? 0) then Panic OtherPanic
+     else if negb (in_i64 (td_ns d)) then Ok NaT
+     else if in_i64 (t - td_ns d) then Ok (t - td_ns d) else Panic Underflow).
+Proof. split; [exact time_add_total | exact time_sub_total]. Qed.
+Theorem C17_time_shift_not_modular :
+  (forall t d y, t <> NaT -> td_months d = 0 -> in_i64 (td_ns d) = true -> time_add t d = Ok y ->
+     y = t + td_ns d /\ (0 <= y < 86400000000000 <-> 0 <= t + td_ns d < 86400000000000))
+  /\ (exists t d y, time_add t d = Ok y /\ 0 <= t < 86400000000000 /\ td_months d = 0 /\ ~ (0 <= y < 86400000000000)
+                    /\ time_as_cr y = None /\ time_hour y = Panic UnwrapNone).
+Proof. split; [exact time_add_in_day_iff | exact time_add_no_wrap]. Qed.
+Theorem C17_time_sub_add_inverse :
+  forall t d y, in_i64 t = true -> t <> NaT -> td_months d = 0 -> in_i64 (td_ns d) = true ->
+    time_sub t d = Ok y -> y <> NaT -> time_add y d = Ok t.
+Proof. exact time_sub_add_inverse. Qed.
+Theorem C17_time_add_compose :
+  forall t a b y z, t <> NaT -> td_months a = 0 -> td_months b = 0 -> in_i64 (td_ns a) = true -> in_i64 (td_ns b) = true ->
+    in_i64 (td_ns a + td_ns b) = true -> time_add t a = Ok y -> y <> NaT -> time_add y b = Ok z ->
+    time_add t (mktd 0 (td_ns a + td_ns b)) = Ok z.
+Proof. exact time_add_compose. Qed.
+(* ---- (9g) duration_trunc: the checks in source order, the rejected input exactly, what it must not change *)
+Theorem C17_trunc_checks :
+  forall u x d,
+  (is_nat x = true -> dt_trunc u x d = Ok x)
+  /\ (x <> NaT -> as_cr u x = None -> dt_trunc u x d = Panic UnwrapNone)
+  /\ (forall c, x <> NaT -> as_cr u x = Some c -> td_months d < 0 -> dt_trunc u x d = Panic OtherPanic).
+Proof. exact dt_trunc_checks. Qed.
+Theorem C17_trunc_monthfree_rejects :
+  forall u x d c, x <> NaT -> td_months d = 0 -> as_cr u x = Some c ->
+    td_ns d <= 0 \/ in_i64 (td_ns d) = false \/ in_i64 (instant_ns u x) = false -> dt_trunc u x d = Panic OtherPanic.
+Proof. exact dt_trunc_monthfree_rejects. Qed.
+Theorem C17_trunc_monthfree_total :
+  forall u x d c, x <> NaT -> td_months d = 0 -> as_cr u x = Some c ->
+    0 < td_ns d -> in_i64 (td_ns d) = true -> in_i64 (instant_ns u x) = true ->
+    dt_trunc u x d = from_cr u (cr_of_total_ns (td_ns d * (instant_ns u x / td_ns d))).
+Proof. exact dt_trunc_monthfree_total. Qed.
+Theorem C17_trunc_idempotent :
+  forall u x d y y', x <> NaT -> td_months d = 0 -> 0 < td_ns d -> td_ns d mod unit_ns u = 0 ->
+    dt_trunc u x d = Ok y -> y <> NaT -> dt_trunc u y d = Ok y' -> y' <> NaT -> y' = y.
+Proof. exact dt_trunc_idempotent. Qed.
+Theorem C17_trunc_monotone :
+  forall u x x' d y y', x <> NaT -> x' <> NaT -> td_months d = 0 -> 0 < td_ns d ->
+    dt_trunc u x d = Ok y -> y <> NaT -> dt_trunc u x' d = Ok y' -> y' <> NaT -> x <= x' -> y <= y'.
+Proof. exact dt_trunc_monotone. Qed.
+Theorem C17_trunc_fixed_iff :
+  forall u x d y, x <> NaT -> td_months d = 0 -> 0 < td_ns d -> td_ns d mod unit_ns u = 0 ->
+    dt_trunc u x d = Ok y -> y <> NaT -> (y = x <-> instant_ns u x mod td_ns d = 0).
+Proof. exact dt_trunc_fixed_iff. Qed.
+Theorem C17_trunc_mixed_sequential :
+  forall u x m n y1 cy, x <> NaT -> divides12 m -> n <> 0 -> dt_trunc u x (mktd m 0) = Ok y1 -> as_cr u y1 = Some cy ->
+    dt_trunc u x (mktd m n) = dt_trunc u y1 (mktd 0 n).
+Proof. exact dt_trunc_mixed_sequential. Qed.
+
 (* ---- non-vacuity ---------------------------------------------------------------------------------------------- *)
 Example C17_ex_add_sub :
   dt_add Sec 0 (mktd 0 90000000000) = Ok 90 /\ dt_sub Sec 90 (mktd 0 90000000000) = Ok 0
@@ -522,6 +748,54 @@ Example C17_ex_order_td :
   /\ td_partial_cmp (mktd 2 5) (mktd 2 5) = Some Eq.
 Proof. vm_compute. intuition. Qed.
 
+
+(* non-vacuity of the audit theorems *)
+Example C17_ex_audit_shift :
+  (* Sec 10 + 1.5 s = 11, - 1.5 s = 9 = 10 - 1: in the class; value = x + floor(ns / unit) *)
+  dt_add Sec 10 (mktd 0 1500000000) = Ok 11 /\ 11 = 10 + 1500000000 / 1000000000
+  /\ dt_sub Sec 11 (mktd 0 1500000000) = Ok 9 /\ 9 = 11 + (- 1500000000) / 1000000000
+  /\ dt_sub Sec 10 (mktd 0 1500000000) = Ok 8 /\ dt_add Sec 8 (mktd 0 1500000000) = Ok 9
+  (* the three panics in order: outside chrono's range; month step out of range; fixed part overflows *)
+  /\ dt_add Sec 9000000000000 (mktd 0 1) = Panic UnwrapNone
+  /\ dt_add Sec 8000000000000 (mktd 1000000 0) = Panic OtherPanic
+  /\ dt_add Sec 8000000000000 (mktd 0 9000000000000000000000) = Panic Overflow
+  /\ dt_sub Sec 0 (mktd (-15) 7) = dt_add Sec 0 (mktd 15 (-7)).
+Proof. vm_compute. intuition. Qed.
+Example C17_ex_audit_diff :
+  dt_diff Milli 5 (-3) = Ok (mktd 0 8000000) /\ dt_sub Milli 5 (mktd 0 8000000) = Ok (-3)
+  /\ dt_diff Milli (-3) 5 = Ok (mktd 0 (-8000000)) /\ dt_diff Sec 9000000000000 0 = Panic UnwrapNone
+  /\ in_i64 (-3) = true /\ as_cr Milli 5 = Some (mkcr 0 5000000).
+Proof. vm_compute. intuition. Qed.
+Example C17_ex_audit_months :
+  (* Jan 31 + 1 month: clamped, the round trip gives Jan 29 (2000 is a leap year); Jan 28: comes back *)
+  add_months (add_months (2000, 1, 31) 1) (-1) = (2000, 1, 29) /\ valid_civil (2000, 1, 31)
+  /\ add_months (add_months (2000, 1, 28) 1) (-1) = (2000, 1, 28)
+  /\ dt_add Sec 949276800 (mktd 1 0) = Ok 951782400 /\ dt_sub Sec 951782400 (mktd 1 0) = Ok 949104000
+  /\ as_cr Sec 949276800 = Some (mkcr 949276800 0) /\ cr_civil (mkcr 949276800 0) = (2000, 1, 31)
+  (* mixed duration = months first, then the fixed part *)
+  /\ dt_add Sec 949276800 (mktd 1 5000000000) = Ok 951782405 /\ dt_add Sec 951782400 (mktd 0 5000000000) = Ok 951782405.
+Proof. vm_compute. intuition. Qed.
+Example C17_ex_audit_time :
+  time_from_nsm 45296 7 = Ok 45296000000007 /\ time_hour 45296000000007 = Ok 12
+  /\ time_from_hms 0 90 0 = Ok 5400000000000 /\ time_from_hms 9223372036854775807 0 0 = Panic Overflow
+  (* as_cr: Time(2^32 s) reads as midnight, Time(-1 ns) and Time(-1 s) are not times of day *)
+  /\ time_as_cr 4294967296000000000 = Some (0, 0) /\ time_as_cr (-1) = None /\ time_as_cr (-1000000000) = None
+  /\ time_add 0 (mktd 0 (i64_max + 1)) = Ok NaT /\ time_add i64_max (mktd 0 1) = Panic Overflow
+  /\ time_sub (-9223372036854775807) (mktd 0 2) = Panic Underflow
+  /\ time_sub 5 (mktd 0 7) = Ok (-2) /\ time_add (-2) (mktd 0 7) = Ok 5.
+Proof. vm_compute. intuition. Qed.
+Example C17_ex_audit_trunc :
+  dt_trunc Sec NaT (mktd 0 5) = Ok NaT /\ dt_trunc Sec 9000000000000 (mktd 0 5) = Panic UnwrapNone
+  /\ dt_trunc Sec 0 (mktd (-1) 0) = Panic OtherPanic /\ dt_trunc Sec 0 td_nat = Panic OtherPanic
+  /\ dt_trunc Sec 0 (mktd 0 0) = Panic OtherPanic /\ dt_trunc Sec 0 (mktd 0 (-5)) = Panic OtherPanic
+  (* DateTime<Second> in year 2300: outside the i64 nanosecond window, chrono reports TimestampExceedsLimit *)
+  /\ dt_trunc Sec 10413792000 (mktd 0 1000000000) = Panic OtherPanic /\ in_i64 (instant_ns Sec 10413792000) = false
+  /\ dt_trunc Sec 1684161045 (mktd 0 3600000000000) = Ok 1684159200
+  /\ dt_trunc Sec 1684159200 (mktd 0 3600000000000) = Ok 1684159200
+  (* 1 month + 1 hour *)
+  /\ dt_trunc Sec 1684161045 (mktd 1 3600000000000) = Ok 1682899200 /\ divides12 1.
+Proof. vm_compute. intuition. Qed.
+
 Print Assumptions C17_add_sub_inverse.
 Print Assumptions C17_diff_add_inverse.
 Print Assumptions C17_td_scale_distributes.
@@ -550,3 +824,42 @@ Print Assumptions C17_td_scale_nat_absorbs.
 Print Assumptions C17_td_scale_bounded.
 Print Assumptions C17_td_order.
 Print Assumptions C17_td_order_group_compatible.
+Print Assumptions C17_dt_add_closed_form.
+Print Assumptions C17_dt_sub_closed_form.
+Print Assumptions C17_dt_shift_outcomes.
+Print Assumptions C17_dt_add_monthfree_outcome.
+Print Assumptions C17_dt_sub_is_add_neg.
+Print Assumptions C17_dt_shift_monthfree_value.
+Print Assumptions C17_inverse_law_iff_class1.
+Print Assumptions C17_inverse_law_iff_class1_mirror.
+Print Assumptions C17_sub_add_class1_loses_one_unit.
+Print Assumptions C17_round_trip_value.
+Print Assumptions C17_diff_closed_form.
+Print Assumptions C17_diff_nano_total.
+Print Assumptions C17_diff_algebra.
+Print Assumptions C17_diff_sub_inverse.
+Print Assumptions C17_diff_never_class1_and_valid.
+Print Assumptions C17_td_ops_total.
+Print Assumptions C17_td_ops_nat_total.
+Print Assumptions C17_td_group_more.
+Print Assumptions C17_add_months_roundtrip_iff.
+Print Assumptions C17_add_months_compose.
+Print Assumptions C17_month_add_sub_not_inverse.
+Print Assumptions C17_month_add_sub_inverse_iff.
+Print Assumptions C17_dt_add_mixed_sequential.
+Print Assumptions C17_time_ctor_total.
+Print Assumptions C17_time_ctor_linear.
+Print Assumptions C17_time_from_num_seconds_from_midnight.
+Print Assumptions C17_time_from_nsm_is_hms_nano.
+Print Assumptions C17_time_as_cr_some_iff.
+Print Assumptions C17_time_shift_total.
+Print Assumptions C17_time_shift_not_modular.
+Print Assumptions C17_time_sub_add_inverse.
+Print Assumptions C17_time_add_compose.
+Print Assumptions C17_trunc_checks.
+Print Assumptions C17_trunc_monthfree_rejects.
+Print Assumptions C17_trunc_monthfree_total.
+Print Assumptions C17_trunc_idempotent.
+Print Assumptions C17_trunc_monotone.
+Print Assumptions C17_trunc_fixed_iff.
+Print Assumptions C17_trunc_mixed_sequential.
